@@ -42,6 +42,12 @@ pub mod squfof;
 pub mod classgroup;
 pub mod relationcls;
 
+// Verification hooks (compiled only with --cfg yamaquasi_verif_loom).
+#[cfg(yamaquasi_verif_loom)]
+pub mod verif_shim;
+#[cfg(yamaquasi_verif_loom)]
+use crate::verif_shim as rayon;
+
 // We need to perform modular multiplication modulo the input number.
 pub type Int = arith::I1024;
 pub type Uint = arith::U1024;
